@@ -280,7 +280,11 @@ Inductive op :=
 | OPop (k : list bytes)
 | ORem (k : list bytes)
 | ORemVal (k : list bytes) (v : bytes)      (* IoSetSuber.rem(keys, val) *)
-| OCnt (k : list bytes).                    (* Plain: cntAll() *)
+| OCnt (k : list bytes)                     (* Plain: cntAll() *)
+| ORaise (k : list bytes) (e : exn).        (* the value argument of a put / pin / add on key k is a lazy iterable
+                                               (generator) that raises e while it is being consumed: Suber/IoSuber/
+                                               IoSetSuber build the list of serialised values BEFORE calling into
+                                               Duror, so the call has no effect *)
 
 Inductive rv := RBool (b : bool) | ROpt (o : option bytes) | RList (l : list bytes) | RNat (n : N).
 
@@ -303,6 +307,7 @@ Definition step_plain (d : dbb) (o : op) : dbb * res rv :=
   | ORem k => let key := tokey k in
       if emptykey key then (d, Exc KeyErr) else let (d', b) := db_del d key in (d', Ok (RBool b))
   | OCnt _ => (d, Ok (RNat (N.of_nat (length d))))
+  | ORaise _ e => (d, Exc e)
   | _ => (d, Exc AttrErr)                    (* Suber has no such method *)
   end.
 
@@ -326,6 +331,7 @@ Definition step_io (set : bool) (d : dbb) (o : op) : dbb * res rv :=
         end
       else (d, Exc TypeErr)                    (* IoSuber.rem takes no val *)
   | OCnt k => (d, rmap (fun l => RNat (N.of_nat (length l))) (getIoVals d (tokey k)))
+  | ORaise _ e => (d, Exc e)
   end.
 
 Definition step (kd : kind) (d : dbb) (o : op) : dbb * res rv :=
@@ -370,6 +376,7 @@ Section Spec.
     | OPin _ (v :: _) => (upd s k (Some v), Ok (RBool true))
     | OGet _ => (s, Ok (ROpt (s k)))
     | ORem _ => (upd s k None, Ok (RBool (match s k with Some _ => true | None => false end)))
+    | ORaise _ e => (s, Exc e)
     | _ => (s, Exc AttrErr)
     end.
 
@@ -398,6 +405,7 @@ Section Spec.
           end
         else (s, Exc TypeErr)
     | OCnt _ => (s, Ok (RNat (N.of_nat (length (s k)))))
+    | ORaise _ e => (s, Exc e)
     end.
 End Spec.
 
@@ -447,7 +455,7 @@ Definition indep2 (k k' : bytes) : Prop :=
 Definition op_key (o : op) : list bytes :=
   match o with
   | OPut k _ | OPin k _ | OAdd k _ | OGet k | OGetFirst k | OGetLast k | OPop k | ORem k
-  | ORemVal k _ | OCnt k => k
+  | ORemVal k _ | OCnt k | ORaise k _ => k
   end.
 
 (* ================= several sub-stores in one environment =================
@@ -510,6 +518,7 @@ Definition op_index (o : op) : nat :=
   match o with
   | OPut _ _ => 0 | OPin _ _ => 1 | OAdd _ _ => 2 | OGet _ => 3 | OGetFirst _ => 4
   | OGetLast _ => 5 | OPop _ => 6 | ORem _ => 7 | ORemVal _ _ => 8 | OCnt _ => 9
+  | ORaise _ _ => 9
   end.
 Definition outcome (r : res rv) : nat :=
   match r with
